@@ -86,8 +86,9 @@ func fixtures() *c15fix {
 	}
 	// ZIP-215 small-order key: key = identity, R = [S]B, S = 5  (model)
 	S := big.NewInt(5)
-	f.soKey = ref.Encodings(ref.Torsion(0))[0]
-	f.soSig = append(ref.BaseMul(S).Encode(), ref.ToLE(S, 32)...)
+	f.soKey = make([]byte, 32)
+	f.soKey[0] = 1 // the identity point
+	f.soSig = append(ref.Base().Mul(S).Encode(), ref.ToLE(S, 32)...)
 	h := sha512.Sum512([]byte("c15 x25519"))
 	f.xScalar, f.xPoint = h[:32], h[32:]
 	fx = f
@@ -699,7 +700,7 @@ func sum(a []int) int {
 
 func jobC15race(c *rt.Ctx) {
 	c.Require("race-pass")
-	reps := 20
+	reps := 12
 	if c.Thorough() {
 		reps = 200
 	}
